@@ -140,7 +140,7 @@ def proof_obligations(prop_modules, extra_modules=()):
     axioms = {}
     cur = None
     text = out.replace("\n  ", " ")
-    for m in re.finditer(r"'([^']+)' (does not depend on any axioms|depends on axioms: \[([^\]]*)\])", text):
+    for m in re.finditer(r"^'(.+?)' (does not depend on any axioms|depends on axioms: \[([^\]]*)\])", text, flags=re.M):
         name = m.group(1)
         axs = [a.strip() for a in (m.group(3) or "").split(",") if a.strip()]
         axioms[name] = axs
